@@ -623,7 +623,9 @@ fn reads(root: &Path, threads: &[String]) -> serde_json::Value {
 /// reads with the caches as found vs with `continuity_streams/` removed.  The caches-removed side always runs
 /// on a private tree; the as-found side runs on a private tree too, or (in_place: the store is discarded
 /// afterwards) on `root` itself.  events.jsonl is shared by hard link: Err = a read path changed its length.
-fn reads_differ(root: &Path, threads: &[String], scratch: &Path, tag: &str, in_place: bool) -> Result<Option<String>, String> {
+/// One differing read: (thread index, which read, description).
+type ReadDiff = (usize, String, String);
+fn reads_differ(root: &Path, threads: &[String], scratch: &Path, tag: &str, in_place: bool) -> Result<Vec<ReadDiff>, String> {
     let a = scratch.join(format!("{tag}-a"));
     let b = scratch.join(format!("{tag}-b"));
     let len0 = truth_len(root);
@@ -645,17 +647,21 @@ fn reads_differ(root: &Path, threads: &[String], scratch: &Path, tag: &str, in_p
         return Err(format!("a read-only capability changed the length of events.jsonl ({len0} -> {})", truth_len(root)));
     }
     if ra == rb {
-        return Ok(None);
+        return Ok(vec![]);
     }
-    // name the first differing read
+    // EVERY differing read is reported and classified on its own (a known finding on one read must not hide another)
     let (xa, xb) = (ra.as_array().unwrap(), rb.as_array().unwrap());
+    let mut out = vec![];
     for (i, (p, q)) in xa.iter().zip(xb.iter()).enumerate() {
         if p != q {
             let key = p.as_object().and_then(|o| o.keys().next().cloned()).unwrap_or_default();
-            return Ok(Some(format!("thread#{} {key}: as-found {} vs caches-removed {}", i / 6, trunc(&p.to_string()), trunc(&q.to_string()))));
+            out.push((i / 6, key.clone(), format!("thread#{} {key}: as-found {} vs caches-removed {}", i / 6, trunc(&p.to_string()), trunc(&q.to_string()))));
         }
     }
-    Ok(Some("reads differ".into()))
+    if out.is_empty() {
+        out.push((usize::MAX, String::new(), "reads differ".into()));
+    }
+    Ok(out)
 }
 /// Executable class of a "reads differ with caches as found vs removed" violation, computed from the files
 /// of thread `id` in `root` (names shared with the C04 harness):
@@ -665,7 +671,10 @@ fn reads_differ(root: &Path, threads: &[String], scratch: &Path, tag: &str, in_p
 ///   => derived_sidecar_wellformed_not_projection (S4)
 /// * a mr / comp sidecar with a line that is not exactly one frame => derived_sidecar_malformed_not_ignored
 /// * else, for a crash point inside / before the index writers => derived_index_wellformed_not_projection (S4)
-fn classify_cache_state(root: &Path, id: &str, point: &str, default: &str) -> String {
+/// `key` = which read differs: the replay / cursor / selection / get reads are answered from the full sidecar
+/// only, so nothing but a stale full sidecar explains a difference there; the mr / comp sidecars and the indexes
+/// explain differences of the cut-point and compaction-status reads only.
+fn classify_cache_state(root: &Path, id: &str, point: &str, key: &str, default: &str) -> String {
     let truth: Vec<Body> = read_bodies(&truth_path(root)).into_iter().flatten().filter(|b| b.ok && b.continuity && b.stream == id).collect();
     let dir = data_dir(root).join("continuity_streams");
     let wellformed = |p: &Path| -> Option<Vec<Body>> {
@@ -683,6 +692,9 @@ fn classify_cache_state(root: &Path, id: &str, point: &str, default: &str) -> St
         if !f.is_empty() && contiguous && f.len() < truth.len() && f.iter().zip(truth.iter()).all(|(a, b)| a.id == b.id) {
             return "full_sidecar_wellformed_stale_prefix".into();
         }
+    }
+    if !matches!(key, "cut" | "status") {
+        return default.to_string();
     }
     let proj = |kinds: &[&str]| -> Vec<String> { truth.iter().filter(|b| kinds.contains(&b.kind.as_str())).map(|b| b.id.clone()).collect() };
     for (file, kinds) in [
@@ -1156,14 +1168,13 @@ fn analyse(
     snapshot_oracle(root, idx, &format!("after a crash at {} (op {op_index}, after {})", s.name, s.after), &mut violations);
     // ---- reads on the recovered store before any further write
     // (the bulk variant restarts the same on-disk state: its first reads would repeat those of the plain variant)
-    let r0 = if bulk { Ok(None) } else { reads_differ(root, &threads0, scratch, "r0", false) };
+    let r0 = if bulk { Ok(vec![]) } else { reads_differ(root, &threads0, scratch, "r0", false) };
     if let Err(e) = &r0 {
         violations.push((format!("after restart at {} (op {op_index}): {e}", s.name), "read_wrote_truth_log".into()));
     }
-    if let Ok(Some(d)) = r0 {
-        let stream: Vec<String> = d.strip_prefix("thread#").and_then(|r| r.split(' ').next()).and_then(|n| n.parse::<usize>().ok()).and_then(|i| threads0.get(i).cloned()).into_iter().collect();
-        let class = match stream.first() {
-            Some(id) => classify_cache_state(root, id, win, "reads_differ_after_restart"),
+    for (t, key, d) in r0.unwrap_or_default() {
+        let class = match threads0.get(t) {
+            Some(id) => classify_cache_state(root, id, win, &key, "reads_differ_after_restart"),
             None => "reads_differ_after_restart".into(),
         };
         violations.push((format!("after restart at {} (op {op_index}): {d}", s.name), class));
@@ -1306,10 +1317,9 @@ fn analyse(
     if let Err(e) = &r1 {
         violations.push((format!("after crash at {} (op {op_index}), restart and follow-ups: {e}", s.name), "read_wrote_truth_log".into()));
     }
-    if let Ok(Some(d)) = r1 {
-        let stream: Vec<String> = d.strip_prefix("thread#").and_then(|r| r.split(' ').next()).and_then(|n| n.parse::<usize>().ok()).and_then(|i| threads1.get(i).cloned()).into_iter().collect();
-        let class = match stream.first() {
-            Some(id) => classify_cache_state(root, id, win, "reads_differ_after_followups"),
+    for (t, key, d) in r1.unwrap_or_default() {
+        let class = match threads1.get(t) {
+            Some(id) => classify_cache_state(root, id, win, &key, "reads_differ_after_followups"),
             None => "reads_differ_after_followups".into(),
         };
         violations.push((format!("after crash at {} (op {op_index}), restart and follow-ups: {d}", s.name), class));
